@@ -584,7 +584,7 @@ Proof.
       destruct (init_nd_inv _ Hi) as [->|[x [-> [_ [_ Hdx]]]]]; cbn [declo oopt app]; rewrite ?Hdx; cbn [app]; rewrite <- ?app_assoc; reflexivity.
 Qed.
 
-Theorem pass2_scope f body r : soks body = true -> rw_stmts f body (mkBlock KDelay) = OK r ->
-  ol [] (bstmts r) = ol [] body.
-Proof. intros Hs H. exact (proj1 (rw_scope f) body (mkBlock KDelay) r Hs (dinv_mk KDelay) H []). Qed.
+Theorem pass2_scope f body r env : soks body = true -> rw_stmts f body (mkBlock KDelay) = OK r ->
+  ol env (bstmts r) = ol env body.
+Proof. intros Hs H. exact (proj1 (rw_scope f) body (mkBlock KDelay) r Hs (dinv_mk KDelay) H env). Qed.
 End S.
